@@ -65,7 +65,9 @@ manifest = {
     "checks": checks,
     "not_applicable": na,
     "notes": "Every check inspects /repo's current working tree on each run (facts are cached only by a SHA-256 of the tree). "
-             "No code of /repo is executed by any check.",
+             "No code of /repo is executed by any check. /repo carries one unguarded `fix:` commit (90d1707, C04: stale duplicates are "
+             "retired before expired winners during recovery) for a genuine defect found by C04.retire-order and demonstrated in "
+             "findings/C04-retire-order; it is recorded under `fixed` in known_findings.json (DESIGN.md §13). No hook commits.",
 }
 with open(os.path.join(VERIF, "MANIFEST.json"), "w") as f:
     json.dump(manifest, f, indent=1)
